@@ -85,3 +85,197 @@ func bigTreeCosts(n int, order string) (checked int, fail string) {
 	}
 	return checked, ""
 }
+
+// bigTreeRemovals: bulk removals on a large tree ("removals that empty subtrees"): n keys are inserted in
+// ascending order and committed, then removed one by one in the given order until the tree is empty, with a
+// commit every n/4 removals; the AVL bound is checked on the working tree after every removal and on every
+// committed version, and rank/key lookups are cross-checked on a sample of the survivors.
+func bigTreeRemovals(n int, order string) (checked int, fail string) {
+	st := vstore.New()
+	t := iavl.NewMutableTree(st, 0, true, iavl.NewNopLogger())
+	key := func(i int) []byte { return []byte(fmt.Sprintf("k%05d", i)) }
+	for i := 0; i < n; i++ {
+		if _, err := t.Set(key(i), []byte("v")); err != nil {
+			return 0, err.Error()
+		}
+	}
+	if _, _, err := t.SaveVersion(); err != nil {
+		return 0, err.Error()
+	}
+	var seq []int
+	switch order {
+	case "ascending":
+		for i := 0; i < n; i++ {
+			seq = append(seq, i)
+		}
+	case "descending":
+		for i := n - 1; i >= 0; i-- {
+			seq = append(seq, i)
+		}
+	case "alternating-ends":
+		for i := 0; i < n; i++ {
+			if i%2 == 0 {
+				seq = append(seq, i/2)
+			} else {
+				seq = append(seq, n-1-i/2)
+			}
+		}
+	case "middle-out":
+		for i := 0; i < n; i++ {
+			if i%2 == 0 {
+				seq = append(seq, n/2+i/2)
+			} else {
+				seq = append(seq, n/2-1-i/2)
+			}
+		}
+	default: // "strided": every 2nd key, then every 2nd of the rest, ...
+		alive := make([]int, n)
+		for i := range alive {
+			alive[i] = i
+		}
+		for len(alive) > 0 {
+			var rest []int
+			for j, k := range alive {
+				if j%2 == 0 {
+					seq = append(seq, k)
+				} else {
+					rest = append(rest, k)
+				}
+			}
+			alive = rest
+		}
+	}
+	seq = seq[:n]
+	bound := func(what string, h int8, size int64) string {
+		if float64(h) > 1.4405*math.Log2(float64(size)+2) {
+			return fmt.Sprintf("%d keys inserted ascending, removed in %s order: %s: height %d exceeds the AVL bound %.3f for %d keys", n, order, what, h, 1.4405*math.Log2(float64(size)+2), size)
+		}
+		return ""
+	}
+	alive := map[int]bool{}
+	for i := 0; i < n; i++ {
+		alive[i] = true
+	}
+	for j, i := range seq {
+		if _, ok, err := t.Remove(key(i)); err != nil || !ok {
+			return checked, fmt.Sprintf("Remove(%s) = %v, %v", key(i), ok, err)
+		}
+		delete(alive, i)
+		checked++
+		if int(t.Size()) != n-j-1 {
+			return checked, fmt.Sprintf("%d keys, %s removal: Size() = %d after %d removals", n, order, t.Size(), j+1)
+		}
+		if f := bound(fmt.Sprintf("working tree after %d removals", j+1), t.Height(), t.Size()); f != "" {
+			return checked, f
+		}
+		if (j+1)%(n/4) == 0 || j == n-1 {
+			_, v, err := t.SaveVersion()
+			if err != nil {
+				return checked, err.Error()
+			}
+			it, err := t.GetImmutable(v)
+			if err != nil {
+				return checked, err.Error()
+			}
+			if f := bound(fmt.Sprintf("version %d", v), it.Height(), it.Size()); f != "" {
+				return checked, f
+			}
+			// rank and key lookups are inverse to each other on the committed version
+			rank := int64(0)
+			for k := 0; k < n; k++ {
+				if !alive[k] {
+					continue
+				}
+				if rank%17 == 0 {
+					idx, val, err := it.GetWithIndex(key(k))
+					kk, _, err2 := it.GetByIndex(rank)
+					if err != nil || err2 != nil || idx != rank || val == nil || string(kk) != string(key(k)) {
+						return checked, fmt.Sprintf("%d keys, %s removal, version %d: GetWithIndex(%s) = %d, GetByIndex(%d) = %q (errors %v %v)", n, order, v, key(k), idx, rank, kk, err, err2)
+					}
+					checked++
+				}
+				rank++
+			}
+		}
+	}
+	return checked, ""
+}
+
+// sparseSurvivorRemovals: for a tree of n = 2^k ascending keys, every root-to-leaf path p and every choice of
+// "leftmost / rightmost" representative kept in each sibling subtree hanging off that path: all other keys are
+// removed in ascending or descending order in one run. Without rebalancing the survivors would form a path
+// of height k with k+1 keys; the AVL bound is checked after every removal.
+func sparseSurvivorRemovals(n int) (scenarios, removals int, fail string) {
+	k := 0
+	for 1<<k < n {
+		k++
+	}
+	key := func(i int) []byte { return []byte(fmt.Sprintf("k%05d", i)) }
+	st0 := vstore.New()
+	t0 := iavl.NewMutableTree(st0, 0, true, iavl.NewNopLogger())
+	for i := 0; i < n; i++ {
+		if _, err := t0.Set(key(i), []byte("v")); err != nil {
+			return 0, 0, err.Error()
+		}
+	}
+	if _, _, err := t0.SaveVersion(); err != nil {
+		return 0, 0, err.Error()
+	}
+	base := st0.Dump()
+	for p := 0; p < n; p++ {
+		for _, rightmost := range []bool{false, true} {
+			keep := map[int]bool{p: true}
+			lo, hi := 0, n // current subtree [lo,hi) containing p
+			for hi-lo > 1 {
+				mid := (lo + hi) / 2
+				if p < mid { // sibling subtree is [mid,hi)
+					if rightmost {
+						keep[hi-1] = true
+					} else {
+						keep[mid] = true
+					}
+					hi = mid
+				} else { // sibling subtree is [lo,mid)
+					if rightmost {
+						keep[mid-1] = true
+					} else {
+						keep[lo] = true
+					}
+					lo = mid
+				}
+			}
+			for _, desc := range []bool{false, true} {
+				scenarios++
+				t := iavl.NewMutableTree(vstore.FromDump(base), 0, true, iavl.NewNopLogger())
+				if _, err := t.Load(); err != nil {
+					return scenarios, removals, err.Error()
+				}
+				for j := 0; j < n; j++ {
+					i := j
+					if desc {
+						i = n - 1 - j
+					}
+					if keep[i] {
+						continue
+					}
+					if _, ok, err := t.Remove(key(i)); err != nil || !ok {
+						return scenarios, removals, fmt.Sprintf("Remove(%s) = %v, %v", key(i), ok, err)
+					}
+					removals++
+					h, size := t.Height(), t.Size()
+					if float64(h) > 1.4405*math.Log2(float64(size)+2) {
+						return scenarios, removals, fmt.Sprintf("%d ascending keys, survivors around the path to key %d (rightmost=%v), the others removed in one run (descending=%v): after removing %s the working tree has height %d > AVL bound %.3f for %d keys",
+							n, p, rightmost, desc, key(i), h, 1.4405*math.Log2(float64(size)+2), size)
+					}
+				}
+				if _, _, err := t.SaveVersion(); err != nil {
+					return scenarios, removals, err.Error()
+				}
+				if h, size := t.Height(), t.Size(); int(size) != len(keep) || float64(h) > 1.4405*math.Log2(float64(size)+2) {
+					return scenarios, removals, fmt.Sprintf("%d ascending keys, survivors around the path to key %d: committed tree has size %d (want %d) height %d", n, p, size, len(keep), h)
+				}
+			}
+		}
+	}
+	return scenarios, removals, ""
+}
